@@ -82,4 +82,15 @@ theorem bbs_blind_commitment_deterministic (hid : List G) (ms : List F) :
 
 example : (hiddenGens [(1:Nat), 2, 3, 4] [0, 2]).length + 1 = 3 := by decide
 
+/-- what the context's challenge hashes determines the holder's commitment (and the recomputed value, the
+key and the nonce): two requests with different commitments feed different item lists to the hash, for
+both suites — the challenge cannot be fixed before the commitment is chosen. Tie: `bl.items` (the model's
+list vs the items the real issuer appended, read from the merlin log). -/
+theorem blindItems_binds {B : Type} (bbs : Bool) (pk gen rc bc nonce pk' gen' rc' bc' nonce' : B)
+    (h : blindItems bbs pk gen rc bc nonce = blindItems bbs pk' gen' rc' bc' nonce') :
+    pk = pk' ∧ rc = rc' ∧ bc = bc' ∧ nonce = nonce' := by
+  cases bbs <;> simp [blindItems] at h <;> simp [h]
+
+example : blindItems true "k" "g" "r" "c" "n" ≠ blindItems true "k" "g" "r" "r" "n" := by decide
+
 end AC.C16
